@@ -47,9 +47,29 @@ variable (p : Program) (f0 : Frame) (rest : List Frame) (V : Array Value) (P : L
 def CorrectAt (G : String → Prop) (T : Expr → Prop) (w : Bool) (fuel : Nat) : Prop :=
   ∀ (e : Expr) (opts : Fopts) (c c' : CState) (slot : JSlot) (sc : Scope) (rs : List Scope) (pool : List KConst) (ps : List (List KConst))
     (n : Nat) (cur : Pos) (env env' : Env) (s s' : SS) (v : Value),
-    opts.tail = false → opts.hint = none → c.scopes = sc :: rs → c.pools = pool :: ps → c.lim ≤ 240 → sc.top = false → T e →
+    opts.tail = false → opts.hint = none → c.scopes = sc :: rs → c.pools = pool :: ps → c.lim ≤ 240 → sc.top = false →
+    (w = true → c.map.length = c.buf.length) → T e →
     cValue fuel opts e c = some (slot, c') → eval n cur env e s = .ok (v, env') s' → EnvS G c.scopes env s.boxes.size sc.ra →
     Correct2 p f0 rest V P G (opts.drop && w) c c' slot sc rs pool ps env env' s s' v
+
+/-- compile-only fact used when the induction hypothesis is applied at a later state (second statement, second operand): the
+    source map stays as long as the code (needed only with `w = true`: `janetc_throwaway` truncates the map by the code length) -/
+def MLAt (G : String → Prop) (T : Expr → Prop) (w : Bool) (fuel : Nat) : Prop :=
+  w = true → ∀ (e : Expr) (opts : Fopts) (c c' : CState) (slot : JSlot) (sc : Scope) (rs : List Scope) (pool : List KConst) (ps : List (List KConst))
+    (env : Env) (nb : Nat),
+    opts.tail = false → opts.hint = none → c.scopes = sc :: rs → c.pools = pool :: ps → sc.top = false → T e →
+    EnvS G c.scopes env nb sc.ra → cValue fuel opts e c = some (slot, c') → c.map.length = c.buf.length → c'.map.length = c'.buf.length
+
+theorem freeslot_bufmap (c c' : CState) (s : JSlot) (h : freeslot c s = some c') : c'.buf = c.buf ∧ c'.map = c.map := by
+  unfold freeslot at h
+  split at h
+  · rw [← Option.some.inj h]; exact ⟨rfl, rfl⟩
+  · split at h
+    · rw [← Option.some.inj h]; exact ⟨rfl, rfl⟩
+    · split at h
+      · rw [← Option.some.inj h]; exact ⟨rfl, rfl⟩
+      · exact absurd h (by simp)
+    · exact absurd h (by simp)
 
 theorem call1_core (hP : P.length < 65536)
     (hK : ∀ i, i < P.length → (p.defs.getD f0.defIdx default).consts.getD i .nil = litOf V (P.getD i .nil))
@@ -58,6 +78,7 @@ theorem call1_core (hP : P.length < 65536)
     (c cq : CState) (slot0 : JSlot) (sc : Scope) (rs : List Scope) (pool : List KConst) (ps : List (List KConst))
     (n2 : Nat) (pos : Pos) (env env_a : Env) (s s_a s' : SS) (va v : Value)
     (hs : c.scopes = sc :: rs) (hp : c.pools = pool :: ps) (hl : c.lim ≤ 240) (htop : sc.top = false)
+    (hm : w = true → c.map.length = c.buf.length)
     (hcc : cCall (cValue fuel) {} (.sym f) [a] c = some (slot0, cq))
     (hsa : eval (n2 + 1) pos env a s = .ok (va, env_a) s_a) (happ : applyFn (n2 + 2) pos (.cfun f) [va] s_a = .ok v s')
     (hE : EnvS G c.scopes env s.boxes.size sc.ra) :
@@ -85,7 +106,7 @@ theorem call1_core (hP : P.length < 65536)
   have hs1 : ({ c with vals := vals1 } : CState).scopes = sc :: rs := hs
   have hp1 : ({ c with vals := vals1 } : CState).pools = pool :: ps := hp
   obtain ⟨ra2, ns2, more2, seg2, segm2, hc2, pv2, r1a, r3a, sok2, bx2, es2, nf2, vm2⟩ :=
-    IH a {} _ c2 sa sc rs pool ps (n2 + 1) pos env env_a s s_a va rfl rfl hs1 hp1 hl htop hTa h2 hsa hE
+    IH a {} _ c2 sa sc rs pool ps (n2 + 1) pos env env_a s s_a va rfl rfl hs1 hp1 hl htop hm hTa h2 hsa hE
   have hs2 : c2.scopes = { sc with ra := ra2, syms := sc.syms ++ ns2 } :: rs := by rw [hc2]
   have hp2 : c2.pools = (pool ++ more2) :: ps := by rw [hc2]
   have hl2 : c2.lim ≤ 240 := by rw [hc2]; exact hl
